@@ -16,7 +16,8 @@ import MdkVerif.Props.C01Fork
   §C  which handler runs on an application message (`step1_app_store`, `step1_app_dup`), and what it leaves.
   §D  one slot: a list of application messages created in the client's current state, any order, any repetition,
       stale events interleaved (`SlotInv`, `slot_run`).
-  §E  one fork level and the message table (`level_rows`), the induction over levels and slots (`MsgDone`).
+  §E  one fork level and the message table (`level_rows`), retained past states along a chain (`Retained`), the induction
+      over levels and slots (`MsgDone`).
   §F  messages of a losing branch: an invariant of EVERY schedule of foreign events (`LInv`, `linv_deliverN`).
 
   The lemmas that unfold definitions of Model/Client.lean: §B `mtrans_*` (step1, deliverOnce, the handlers,
